@@ -23,6 +23,15 @@ pub struct RunReport {
 }
 
 pub fn run_plan(plan: &Plan, trace: bool) -> RunReport {
+    // containment self-test only (bin/selftest): never present in generated plans otherwise
+    if plan.notes.iter().any(|n| n == "SELFTEST-ABORT") {
+        std::process::abort();
+    }
+    if plan.notes.iter().any(|n| n == "SELFTEST-HANG") {
+        loop {
+            std::thread::sleep(std::time::Duration::from_secs(1));
+        }
+    }
     let mut ctx = Ctx::new(trace);
     ctx.event(&plan.arm, plan.bits as u64, u64::from(plan.flavour));
     ctx.log.str(&plan.codec);
@@ -81,6 +90,7 @@ fn signature(plan: &Plan, ctx: &Ctx) -> (u64, bool) {
     let mut d = crate::prng::Digest::default();
     d.str(&plan.arm);
     d.str(&plan.codec);
+    d.u8(u8::from(cfg!(feature = "r09"))); // the two feature configurations are different systems
     d.u64(u64::from(plan.flavour));
     d.u8(crate::widths::width_class(plan.bits));
     d.u8(plan.records.first().map_or(255, |v| value_class(plan.bits, v)));
